@@ -143,6 +143,21 @@ Section Steps1.
     - left. reflexivity.
   Qed.
 
+  Lemma step_setvotes : forall s id vs,
+    Inv F s -> n_role (nodes s id) <> Candidate ->
+    Inv F (set_node s id (set_votes vs (nodes s id))).
+  Proof.
+    intros s id vs I Hr.
+    apply inv_gsame; try assumption; cbn [set_votes n_term n_log n_vote n_role n_commit n_votes n_match].
+    - lia.
+    - reflexivity.
+    - left. split; reflexivity.
+    - right. split; reflexivity.
+    - intros Hr'. contradiction.
+    - intros Hr' x. apply (hK5 _ _ I id x Hr').
+    - left. reflexivity.
+  Qed.
+
   Lemma step_commit : forall s id cfg,
     Inv F s -> In cfg F -> n_role (nodes s id) = Leader ->
     Inv F (set_node s id (maybe_commit (fst cfg) (snd cfg) (nodes s id))).
